@@ -9,12 +9,14 @@ PROP = "C02"
 
 def run(tier: str, seed: int, replay=None) -> int:
     return eqlcheck.run_check(
-        PROP, tier, seed, replay, profile="c02", mode="bag", n_quick=2500, n_thorough=40000,
+        PROP, tier, seed, replay, profile="c02", mode="bag", n_quick=2500, n_thorough=100000,
         targets=["Props/C02.vo"],
         in_fragment=lambda c: eqlcheck.FRAG02.get(eqlcheck.case_key(c), False),
         in_scope=lambda c: eqlcheck.FRAG02.get(eqlcheck.case_key(c), eqlgen.in_f02(c)), modelled_classes=[],
         trusted=[
-            "hand-written model Eql/Eval.v of symbolic.py and of optimize_or (mk_or), tied by differential execution through the public API",
+            "hand-written model Eql/Eval.v of symbolic.py, tied by differential execution through the public API; the generator bodies of "
+            "Not/AND/OR/Union/ElseIf and the decisions of or_/not_ are additionally regenerated from the source on every run "
+            "(translator/t_symeval.py, t_symbolic.py) and proved equal to the model (Eql/EvalSourceProofs.v, Eql/DecisionsProofs.v)",
             "harness/eqlgen.py (generator) and harness/eqlcheck.py; the fragment of every generated case is the flag case_in_F02 COMPUTED IN COQ (theorem C02_fragment_flag: inside it the model's rows are a Permutation of the Spec's enumeration)",
             "atomic comparison semantics apply_op / py_eq (Eql/Syntax.v) shared by model and Spec",
         ],
